@@ -24,6 +24,8 @@ PAYLOADS = [
     "socket.socket()",
     "getattr(__import__('os'), 'system')('true')",
     "__import__('ctypes').CDLL(None)",
+    # plain dotted names (no call): resolving one means importing the module it names
+    "canary_mod.Hook", "canary_mod.run", "canary_mod.x", "canary_mod.sub.Thing", "os.path.join", "subprocess.Popen",
 ]
 PROSE = [
     "`__import__('os').system('id')`", "`os.system` or `subprocess.Popen`", "list of `open`", "one of `a` or `b`",
@@ -193,7 +195,8 @@ def build(i, r, scratch):
 
     canary = os.path.join(scratch, "canary_mod.py")
     if not os.path.exists(canary):
-        write(scratch, "canary_mod.py", "open(%r, 'w').close()\n" % os.path.join(scratch, "SENTINEL_canary_imported"))
+        write(scratch, "canary_mod.py", "open(%r, 'w').close()\n\n\nclass Hook(object):\n    pass\n\n\ndef run():\n    return 1\n\n\n"
+                                        "x = 1\n" % os.path.join(scratch, "SENTINEL_canary_imported"))
     kind = KINDS[i % len(KINDS)]
     if kind == "docstring_parse":
         style = r.choice(STYLES)
